@@ -246,6 +246,9 @@ func replay(sub string, raw json.RawMessage) ([]h.Failure, error) {
 }
 
 const genProg = "导入《@JSON》\n输入D\n令文 = （生成JSON：D）\n令回 = （解析JSON：文）\n输出【文，回，回 为 D】\n拦截异常：\n    输出“caught”"
+// for values JSON cannot represent only the generation is attempted (a re-parse of whatever
+// text came out would raise as well and hide an accepted value)
+const genOnlyProg = "导入《@JSON》\n输入D\n输出【（生成JSON：D）】\n拦截异常：\n    输出“caught”"
 const parseProg = "导入《@JSON》\n输入T\n输出（解析JSON：T）\n拦截异常：\n    输出“caught”"
 
 func hasNonFinite(v zn.Value) bool {
@@ -269,7 +272,11 @@ func hasNonFinite(v zn.Value) bool {
 }
 
 func checkGenerate(d zn.Value) ([]h.Failure, string) {
-	o := h.Run(genProg, h.Opts{Inputs: map[string]r.Element{"D": zn.ToElem(d)}})
+	prog := genProg
+	if hasNonFinite(d) {
+		prog = genOnlyProg
+	}
+	o := h.Run(prog, h.Opts{Inputs: map[string]r.Element{"D": zn.ToElem(d)}})
 	desc := "dictionary " + zn.Show(d)
 	switch o.Kind {
 	case h.KPanic:
